@@ -107,7 +107,7 @@ func genType(c *core.Case, cfg ttypes.Cfg) (reflect.Type, bool) {
 
 func runMarshal(c *core.Case) {
 	r := c.Rng
-	t, ok := genType(c, ttypes.Cfg{MaxDepth: 2, MaxFields: 7, NoMaps: c.Index%2 == 0})
+	t, ok := genType(c, ttypes.Cfg{MaxDepth: 2, MaxFields: 7, NoMaps: c.Index%2 == 0, Embedding: true, Unions: true})
 	if !ok {
 		c.Count("generator.panic", 1)
 		return
@@ -199,7 +199,7 @@ func shuffleFields(r *core.Rand, n tspec.Node) tspec.Node {
 
 func runAlternatives(c *core.Case) {
 	r := c.Rng
-	t, ok := genType(c, ttypes.Cfg{MaxDepth: 2, MaxFields: 7})
+	t, ok := genType(c, ttypes.Cfg{MaxDepth: 2, MaxFields: 7, Embedding: true, Unions: true})
 	if !ok {
 		return
 	}
